@@ -143,6 +143,9 @@ def render(chan, items, kinds, variant):
         return env
     # cfg / obj: one mapping
     root: dict = {}
+    for it in items:
+        if it["op"] == "graw":
+            return {"g": {"null": None, "int": 5, "list": [1, 2], "float": 2.5, "str": "text"}[it["f"]]}
     for n, it in enumerate(items):
         pairs = [(it["f"] + ("+" if it["op"] == "app" else ""), val(it, it["f"], it["v"]) if it["op"] != "app" else list(it["v"]))] if it["op"] != "group" \
             else [(f, conc(kinds[f], v)) for f, v in it["gv"]]
@@ -184,10 +187,18 @@ def run_case(case):
                 else:
                     cfg = p.parse_object(json.loads(json.dumps(payload)))
                 g = cfg.get("g")
-                got = {f: (absv(kinds[f], g.get(f)) if g is not None and f in g else [UNSET]) for f in kinds}
+                from jsonargparse import Namespace as _NS
+
+                if g is not None and not isinstance(g, _NS):
+                    got = {f: [-2] for f in kinds}  # the group key holds a non-mapping
+                else:
+                    got = {f: (absv(kinds[f], g.get(f)) if g is not None and f in g else [UNSET]) for f in kinds}
                 dump = p.dump(cfg)
                 back = (yaml.safe_load(dump) or {}).get("g") or {}
-                reread = {f: (absv(kinds[f], back.get(f)) if f in back else [NONE]) for f in kinds}
+                if not isinstance(back, dict):
+                    reread = {f: [-2] for f in kinds}
+                else:
+                    reread = {f: (absv(kinds[f], back.get(f)) if f in back else [NONE]) for f in kinds}
                 outs.append({"style": style, "ok": True, "cfg": got, "dump": dump, "reread": reread})
             except ArgumentError as ex:
                 outs.append({"style": style, "ok": False, "cfg": None, "msg": str(ex)[:200]})
@@ -210,6 +221,9 @@ def random_case(rnd):
     names = rnd.sample(["a", "b", "c", "d", "e", "f"], nf)
     fields = [{"name": n, "kind": rnd.choice(KINDS), "hasdef": rnd.random() < 0.6} for n in names]
     chan = rnd.choice(["argv", "argv", "cfg", "env", "obj"])
+    if rnd.random() < 0.08:
+        # the group key holds something that is not a mapping: unspecified, but the four styles must agree
+        return {"fields": fields, "chan": rnd.choice(["cfg", "obj"]), "items": [{"op": "graw", "f": rnd.choice(["null", "int", "list", "float"]), "v": [], "gv": [], "bad": False}]}   # (a string there is a config path for the styles that have a group action)
     items = []
     used = set()
     for j in range(rnd.randint(0, 4)):
@@ -301,12 +315,16 @@ def main(argv):
                         "observed": {"ok": o["ok"], "cfg": o["cfg"], "msg": o.get("msg")}, "clause": p[3], "all": [{"style": x["style"], "ok": x["ok"], "cfg": x["cfg"]} for x in r["outs"]]}
                 if p[3] in ("ref-dev-as-alg", "ref-dev"):
                     rep.violation("dotted:no-whole-group", DEV, case)
+                elif p[3] == "styles-disagree":
+                    rep.violation(f"styles-disagree:{c['chan']}:group-key-holds-{c['items'][0]['f']}", "the four declaration styles treat a non-mapping value at the group key differently",
+                                  {"fields": c["fields"], "channel": c["chan"], "items": c["items"], "payload": r["payload"], "all": [{"style": x["style"], "ok": x["ok"], "cfg": x["cfg"], "msg": x.get("msg")} for x in r["outs"]]})
                 elif p[3] == "ref":
                     rep.violation(f"random:{o['style']}:{c['chan']}:{'accepted' if o['ok'] else 'rejected'}:{_sig(c)}", f"style {o['style']} disagrees with the one reference outcome", case)
                 else:
                     rep.add_drift("random: real = Ref but not Alg", case)
         for c, r in zip(rcases, rres):
-            _dumps(rep, c, r, "random:")
+            if not any(it["op"] == "graw" for it in c["items"]):
+                _dumps(rep, c, r, "random:")
             for o in r["outs"]:
                 if o.get("escaped"):
                     rep.violation(f"escaped:{o['escaped']}:{o['style']}", f"{o['escaped']} escaped in style {o['style']}: {o.get('msg')}", {"fields": c["fields"], "channel": c["chan"], "items": c["items"], "payload": r["payload"]})
